@@ -202,9 +202,8 @@ def run(ctx) -> None:
     loops = [n for n in walk_no_nested(gt.node) if isinstance(n, ast.For)]
     ok = len(loops) == 1 and unparse(loops[0].iter) == "version.V2CalendarInfo._fields"
     ctx.check("R4", ok, "_is_cal_gt iterates version.V2CalendarInfo._fields", "v2version._is_cal_gt: does not compare all calendar fields in declared order", "", loc=gt.loc())
-    src = unparse(gt.node)
-    ok = "lval is None or rval is None" in src and "lvals.append(lval)" in src and "rvals.append(rval)" in src and f"getattr({gt.params[0]}, field)" in src and f"getattr({gt.params[1]}, field)" in src
-    ctx.check("R4", ok, "_is_cal_gt skips pairs with a None and collects (left, right) values", "v2version._is_cal_gt: collection of comparable fields changed", "", loc=gt.loc())
+    from checks.c05 import none_filter_rule
+    none_filter_rule(ctx, "v2version", "R4")
     rets = [n for n in walk_no_nested(gt.node) if isinstance(n, ast.Return)]
     ctx.check("R4", len(rets) == 1 and unparse(rets[0].value) == "lvals > rvals", "_is_cal_gt returns lvals > rvals", "v2version._is_cal_gt: comparison is not `left > right`", unparse(rets[0]) if rets else "", loc=gt.loc())
     order = prog.klass("version.V2CalendarInfo").fields
